@@ -312,6 +312,23 @@ class C08(core.Check):
                 out.append({"name": "t%d-c%d-u%d-h%d" % (i, comp, uncomp, cht), "T": core.b64(T), "Bt": core.b64(Bt), "srcs": [core.b64(s) for s in srcs], "skinds": kinds,
                             "mode": mode, "reset": r.random() < 0.5, "zh": ctx["zh"], "setfd": len(srcs) > 1 and r.random() < 0.4,
                             "fd2": 3 if (mode == "copy" and r.random() < 0.25) else None})
+            if i % 8 == 6 and nch >= 2:
+                # the whole old file as source, cut in the middle of one of its chunks (every stored chunk before it is complete, the read of
+                # that chunk comes back short, later ones are absent); every target chunk still to fill, over junk
+                Sfull = zckref.make_file(pieces, comp_type=comp, dict_bytes=db, chunk_hash_type=cht, uncomp=uncomp)
+                pSf = zckref.parse(Sfull)
+                cands_ = [c for c in pSf.chunks[1:] if c["comp_len"] >= 2]
+                if cands_:
+                    c_ = r.choice(cands_)
+                    for frac in (1, 2):
+                        cutS = Sfull[: pSf.header_len + c_["start"] + max(1, c_["comp_len"] * frac // 3)]
+                        Tj = bytearray(Bt)
+                        for cc in pT.chunks:
+                            if cc["comp_len"]:
+                                a = pT.header_len + cc["start"]
+                                Tj[a:a + cc["comp_len"]] = bytes(x ^ 0xA5 for x in Tj[a:a + cc["comp_len"]])
+                        out.append({"name": "t%d-cut-mid-chunk%d" % (i, frac), "T": core.b64(bytes(Tj)), "Bt": core.b64(Bt), "srcs": [core.b64(cutS)], "skinds": ["cut-mid-chunk"],
+                                    "mode": "copy", "reset": r.random() < 0.5, "zh": ctx["zh"], "setfd": False})
             if i % 8 == 1 and nch >= 5:
                 # the target's chunks come from two sources in file order (first part, second part), the descriptor re-opened in between:
                 # the second copy continues exactly where the first one stopped writing
